@@ -38,9 +38,10 @@ type mArt struct {
 	Versions []mVer `json:"versions"`
 }
 type mCase struct {
-	Universe []mArt `json:"universe"`
-	Root     uRoot  `json:"root"`
-	SoftOnly bool   `json:"softonly"`
+	Universe []mArt          `json:"universe"`
+	Root     uRoot           `json:"root"`
+	SoftOnly bool            `json:"softonly"`
+	Model    json.RawMessage `json:"model,omitempty"` // graph the algorithm model (MavenResolve.tla) returns; passed through to the trace
 }
 type mEdge struct {
 	F     int      `json:"f"`
@@ -59,14 +60,15 @@ type mGraph struct {
 	Edges []mEdge `json:"edges"`
 }
 type mObs struct {
-	Universe []mArt `json:"universe"`
-	Root     uRoot  `json:"root"`
-	SoftOnly bool   `json:"softonly"`
-	Ok       bool   `json:"ok"`
-	Err      string `json:"err"`
-	GErr     string `json:"gerr"`
-	Graph    mGraph `json:"graph"`
-	Unmapped string `json:"unmapped"`
+	Universe []mArt          `json:"universe"`
+	Root     uRoot           `json:"root"`
+	SoftOnly bool            `json:"softonly"`
+	Ok       bool            `json:"ok"`
+	Err      string          `json:"err"`
+	GErr     string          `json:"gerr"`
+	Graph    mGraph          `json:"graph"`
+	Unmapped string          `json:"unmapped"`
+	Model    json.RawMessage `json:"model,omitempty"`
 }
 
 func mavenDepType(d mDep) dep.Type {
@@ -143,7 +145,7 @@ func cmdMaven(args []string) error {
 	defer w.Close()
 	ctx := context.Background()
 	for _, c := range cases {
-		o := mObs{Universe: c.Universe, Root: c.Root, SoftOnly: c.SoftOnly, Graph: mGraph{Nodes: []nNode{}, Edges: []mEdge{}}}
+		o := mObs{Universe: c.Universe, Root: c.Root, SoftOnly: c.SoftOnly, Graph: mGraph{Nodes: []nNode{}, Edges: []mEdge{}}, Model: c.Model}
 		lc := loadMavenUniverse(c, tb.Versions, tb.Reqs)
 		g, err := maven.NewResolver(lc).Resolve(ctx, resolve.VersionKey{PackageKey: resolve.PackageKey{System: resolve.Maven, Name: c.Root.Name}, VersionType: resolve.Concrete, Version: tb.Versions[c.Root.V-1]})
 		if err != nil || g == nil {
